@@ -73,6 +73,20 @@ def child_of(cb: Callback, e: ast.AST, defs: Defs, depth: int = 0) -> Optional[T
             return ("restdict", r[1]) if isinstance(e, ast.DictComp) else r
     if isinstance(e, ast.Name):
         vals = [v for k, v, st in defs.values(e.id) if k == "assign" and v is not None]
+        # acc = []; for x in <rest>: acc.append(<x through value-keeping wrappers>)   ==  [.. for x in <rest>]
+        if len(vals) == 1 and isinstance(vals[0], ast.List) and not vals[0].elts:
+            for n in ast.walk(defs.fn):
+                if isinstance(n, ast.For) and isinstance(n.target, ast.Name):
+                    apps = [c for c in ast.walk(n) if isinstance(c, ast.Call) and isinstance(c.func, ast.Attribute) and c.func.attr == "append" and isinstance(c.func.value, ast.Name) and c.func.value.id == e.id and len(c.args) == 1]
+                    if len(apps) == 1:
+                        elem = apps[0].args[0]
+                        cur = elem
+                        while isinstance(cur, ast.Call) and isinstance(cur.func, ast.Attribute) and cur.func.attr in ("attempt", "unwrap", "map_err"):
+                            cur = cur.func.value
+                        if isinstance(cur, ast.Name) and cur.id == n.target.id:
+                            r = child_of(cb, n.iter, defs, depth + 1)
+                            if r and r[0] == "rest":
+                                return r
         if len(vals) >= 1:
             # e.g. fields = fields[1:]; fields = [f for f in fields if ...]  (a filtered rest stays a rest)
             rs = {child_of(cb, v, defs, depth + 1) for v in vals if not (isinstance(v, ast.Name) and v.id == e.id)}
@@ -155,7 +169,20 @@ def run(eng, rep) -> None:
                 continue
             got = child_of(cb, a, defs)
             okc = got == want or (want[0] == "restdict" and got == ("rest", want[1]) and ("dict(" in norm(a, 200) or "{" in norm(a, 200))) or (want[0] == "rest" and got == ("restdict", want[1]) and False)
+            via_helper = None
             if got is None:
+                a_r = a
+                if isinstance(a, ast.Name):
+                    vs_ = [v for k, v, st in defs.values(a.id) if k == "assign" and v is not None]
+                    a_r = vs_[0] if len(vs_) == 1 else a
+                if isinstance(a_r, ast.Call):
+                    cs_ = cg.site_of.get(id(a_r))
+                    if cs_ and cs_.callees and cs_.how in ("direct", "method") and all(prog.functions[c_].module.name.startswith("fcp.parser") for c_ in cs_.callees if c_ in prog.functions) \
+                            and any(child_of(cb, x_, defs) is not None for x_ in a_r.args):
+                        via_helper = cs_.callees[0]
+            if via_helper is not None:
+                rep.undecided("R07.2", f.file, f.qual, "%s.%s <- %s" % (cq.split(".")[-1], pname, norm(a, 50)), "the child is handed to helper %s whose result becomes the attribute; not followed" % via_helper)
+            elif got is None:
                 rep.violation("R07.2", f.file, f.qual, "%s.%s <- %s" % (cq.split(".")[-1], pname, norm(a, 50)),
                               "attribute '%s' is not the child %s passed through unchanged (it is computed by an expression that is not a recognised value-preserving form): the tree is not a faithful image of the source" % (pname, want))
             else:
@@ -194,13 +221,18 @@ def r072_impl(eng, rep, cbs, g) -> None:
         rep.check(got == want, "R07.2", f.file, f.qual, "Impl.%s <- child %s" % (pname, got), "= %s" % (want,), "binding attribute '%s' is fed from child %s, the grammar puts it at %s" % (pname, got, want))
     # name: third identifier when present, else the type
     a = arg_for(ctor, params, "name")
-    okn = False
+    okn = None
     if isinstance(a, ast.Name):
         vals = [norm(v, 60) for k, v, st in defs.values(a.id) if v is not None]
         tname = [k for k, v in cb.binds.items() if v == ("idx", 1)]
         rest = [k for k, v in cb.binds.items() if v[0] == "rest"]
-        okn = bool(tname) and tname[0] in vals and any(v.endswith("[0]") and rest and v.startswith(rest[0]) for v in vals)
-    rep.check(okn, "R07.2", f.file, f.qual, "Impl.name <- optional third identifier, else the type name", "renamed bindings keep their name; others are named after the struct", "binding name is not (optional `as` identifier, default: type name)")
+        from_type = bool(tname) and tname[0] in vals
+        from_rest = any(rest and v.startswith(rest[0]) and (v.endswith("[0]") or v.endswith(".pop(0)")) for v in vals)
+        okn = True if (from_type and from_rest) else (False if (vals and not from_rest and len(vals) == 1) or (vals and not from_type and not any(rest and rest[0] in v for v in vals)) else None)
+    if okn is None:
+        rep.undecided("R07.2", f.file, f.qual, "Impl.name <- optional third identifier, else the type name", "binding of the name not in a recognised form")
+    else:
+        rep.check(okn, "R07.2", f.file, f.qual, "Impl.name <- optional third identifier, else the type name", "renamed bindings keep their name; others are named after the struct", "binding name is not (optional `as` identifier, default: type name)")
     # fields / signals partition the rest
     fa, sa = arg_for(ctor, params, "fields"), arg_for(ctor, params, "signals")
     rep.check(fa is not None and sa is not None, "R07.2", f.file, f.qual, "Impl.fields / Impl.signals", "extension fields and signal blocks are both kept", "extension fields or signal blocks are dropped from the binding")
@@ -284,17 +316,24 @@ def r072_impl(eng, rep, cbs, g) -> None:
         v, detail = classify(a, want_kind)
         (rep.ok if v == "ok" else rep.violation if v == "violation" else rep.undecided)("R07.2", f.file, f.qual, "Impl.%s <- %s" % (pname, norm(a, 40)), detail)
     # R07.6 discriminators
-    txt = norm(f.node, 4000)
-    kinds = {"isinstance(x, str)": "identifier", "isinstance(x, signal_block.SignalBlock)": "signal_block", "isinstance(x, tuple)": "extension_field"}
-    used = [k for k in kinds if k in txt]
+    import re as _re
+    txt = norm(f.node, 6000)
+    tested = {m_.group(1).split(".")[-1] for m_ in _re.finditer(r"isinstance\([^,()]+(?:\[[^\]]*\])?, ([\w\.]+)\)", txt)}
     # the callbacks' result types: identifier -> str, extension_field -> tuple, signal_block -> SignalBlock
     rt = {}
     for r_ in ("identifier", "extension_field", "signal_block"):
         c = cbs.get(r_)
         rt[r_] = eng.T.return_type(c.f) if c else None
     okp = rt.get("identifier") == ("prim", "str") and rt.get("extension_field") is not None and rt["extension_field"][0] == "tuple" and rt.get("signal_block") == ("inst", S + "signal_block.SignalBlock")
-    rep.check(okp and "isinstance(x, str)" in used and "isinstance(x, signal_block.SignalBlock)" in used, "R07.6", f.file, f.qual, "discriminators %s" % used, "child kinds (str / tuple / SignalBlock) are disjoint and each is tested by its own type",
-              "the tests used to tell the optional name, extension fields and signal blocks apart do not match the result types of their actions")
+    site = "discriminators %s" % sorted(tested)
+    if not okp:
+        rep.violation("R07.6", f.file, f.qual, site, "the tests used to tell the optional name, extension fields and signal blocks apart do not match the result types of their actions")
+    elif {"str", "SignalBlock"} <= tested and tested <= {"str", "SignalBlock", "tuple"}:
+        rep.ok("R07.6", f.file, f.qual, site, "child kinds (str / tuple / SignalBlock) are disjoint and each is tested by its own type")
+    elif tested - {"str", "SignalBlock", "tuple"}:
+        rep.violation("R07.6", f.file, f.qual, site, "the tests used to tell the optional name, extension fields and signal blocks apart do not match the result types of their actions")
+    else:
+        rep.undecided("R07.6", f.file, f.qual, site, "not every child kind is told apart by an isinstance test in a recognised form")
 
 
 def r073(eng, rep, cbs) -> None:
